@@ -563,13 +563,36 @@ tl::expected<std::string, errors> canonicalize_opaque_pathname(
   // Set dummyURL's path to the empty string.
   // Let parseResult be the result of running URL parsing given value with
   // dummyURL as url and opaque path state as state override.
-  if (auto url =
-          ada::parse<url_aggregator>("fake:" + std::string(input), nullptr)) {
-    // Return the result of URL path serializing dummyURL.
-    return std::string(url->get_pathname());
+  //
+  // Parsing "fake:" + value instead is not the same thing: it drops leading
+  // and trailing C0 control or space, and a value starting with '/' leaves the
+  // opaque path state for the path (or, with "//", the authority) state. The
+  // opaque path state is simple enough to be run directly.
+  std::string value(input);
+  // The basic URL parser removes all ASCII tab or newline from its input.
+  helpers::remove_ascii_tab_or_newline(value);
+  // U+003F (?) and U+0023 (#) leave the opaque path state (with or without a
+  // state override); what follows is not part of the path.
+  const size_t end = value.find_first_of("?#");
+  const bool followed_by_query_or_fragment = end != std::string::npos;
+  if (followed_by_query_or_fragment) {
+    value.resize(end);
   }
-  // If parseResult is failure, then throw a TypeError.
-  return tl::unexpected(errors::type_error);
+  // A U+0020 SPACE directly in front of that '?' or '#' is appended as "%20".
+  const bool encode_last_space =
+      followed_by_query_or_fragment && value.ends_with(' ');
+  if (encode_last_space) {
+    value.pop_back();
+  }
+  // Every other code point is UTF-8 percent-encoded using the C0 control
+  // percent-encode set.
+  std::string result = ada::unicode::percent_encode(
+      value, character_sets::C0_CONTROL_PERCENT_ENCODE);
+  if (encode_last_space) {
+    result.append("%20");
+  }
+  // Return the result of URL path serializing dummyURL.
+  return result;
 }
 
 tl::expected<std::string, errors> canonicalize_search(std::string_view input) {
